@@ -802,6 +802,22 @@ def gen0(tier, rng, shard, nshards):
                                      stublen=rng.choice([0, 5, 64]))
             yield emit(entry(), 8192, False, None, data, views)
 
+        # ---- 7f. block at decoded offset 0..7 of a XorEncoded stage (reads starting inside the first dword splice the initial nonce with
+        #          the first encoded dword), the image following behind it
+        for k0 in ([0, 1, 2, 3, 4, 5, 7] if thorough else [1, 2, 3, 5]):
+            if not mine():
+                continue
+            key = rng.choice(DEFAULT_KEYS)
+            for _attempt in range(20):
+                blk = bxor(cfg_block(rng, rng.choice([64, 128]), 2, "zero"), key)
+                view = bytes(rng.choice(b"\x90\xcc\xf0") for _ in range(k0)) + blk + bytes(pe_image(rng, 900))
+                data = xor_stage(rng, view, rng.choice([0, 5, 64]), marker=rng.random() < 0.5, good_size=True)
+                vv = [(True, view), (False, data)]
+                c = first_candidate(vv, tried_keys(None, False))
+                if c is not None and c[0] is True and c[3] == k0 and c[2] == key:
+                    yield emit(entry(), rng.choice([8192, 64]), False, None, data, vv)
+                    break
+
     # ---- 8. random mix
     for _ in range((600 if thorough else 60) // nshards):
         key = bytes([rng.randrange(256)])
